@@ -141,6 +141,7 @@ THOROUGH_ONLY = THOROUGH_ONLY + (
 SHARDS.update({
     "urwid/widget/listbox.py:ListBox._keypress_page_up": (16, 12),
     "urwid/widget/listbox.py:ListBox._keypress_page_down": (16, 12),
+})
 # contracts/C10_editgeo.py: the two functions that go through the whole chain translation -> cursor cell -> line position
 # TextCanvas.content (contracts/C02_content.py): one row in full generality (~190 paths, ~30 s on one core); two rows over the
 # whole width (quick); every row window x every column window x with / without a map of two / three rows: ~3 min / ~10 min on one core
